@@ -47,10 +47,14 @@ def prefixFold : List Char → List Char → Bool
   | _ :: _, [] => false
   | p :: ps, c :: cs => foldEq p c && prefixFold ps cs
 
+/-- `([^-_a-zA-Z0-9]|$)`: the text after the pattern is empty or starts with a non-identifier character -/
+def boundaryOk : List Char → Bool
+  | [] => true
+  | c :: _ => !isIdentChar c
+
 /-- `(?i)^pattern([^-_a-zA-Z0-9]|$)?` against the peek buffer -/
 def matchPat (buf : List Char) (p : Pat) : Bool :=
-  prefixFold p.text buf &&
-  (!p.identLike || match buf.drop p.text.length with | [] => true | c :: _ => !isIdentChar c)
+  prefixFold p.text buf && (!p.identLike || boundaryOk (buf.drop p.text.length))
 
 /-- `IntermediateToken::try_from`: first matching pattern of the ordered set -/
 def firstMatch (buf : List Char) : Option Pat := patterns.find? (matchPat buf)
@@ -75,30 +79,33 @@ def untilBrace : List Char → Option (List Char × List Char)
   | [] => none
   | c :: cs => if c == '}' then some ([], cs) else (untilBrace cs).map fun r => (c :: r.1, r.2)
 
-/-- `tokenize_level`; `acc` is `result`, returned with the unconsumed input (for nested levels). -/
-def tokenizeLevel : Nat → List Char → Bool → List Tok → Except TokErr (List Tok × List Char)
+/-- `tokenize_level` over a token recogniser `m` (the code's recogniser is `bufMatch`: first match of
+    the ordered pattern set on the 6-character peek buffer); `acc` is `result`, returned with the
+    unconsumed input (for nested levels). -/
+def tokenizeLevelW (m : List Char → Option Pat) :
+    Nat → List Char → Bool → List Tok → Except TokErr (List Tok × List Char)
   | 0, _, _, _ => .error .outOfFuel
   | fuel + 1, inp, top, acc =>
     match trimWs inp with
     | [] => if top then .ok (acc, []) else .error .missingClosingParenthesis
     | c :: cs =>
       let inp' := c :: cs
-      match firstMatch (inp'.take takeSize) with
+      match m inp' with
       | none =>
         let r := spanIdent inp'
         if r.1.isEmpty then .error .unknownSymbol
-        else tokenizeLevel fuel r.2 top (acc ++ [.lit r.1])
+        else tokenizeLevelW m fuel r.2 top (acc ++ [.lit r.1])
       | some p =>
         match p.kind with
-        | .and => tokenizeLevel fuel (inp'.drop p.text.length) top (acc ++ [.and])
-        | .or => tokenizeLevel fuel (inp'.drop p.text.length) top (acc ++ [.or])
-        | .not => tokenizeLevel fuel (inp'.drop p.text.length) top (acc ++ [.not])
-        | .tt => tokenizeLevel fuel (inp'.drop p.text.length) top (acc ++ [.tt])
-        | .ff => tokenizeLevel fuel (inp'.drop p.text.length) top (acc ++ [.ff])
+        | .and => tokenizeLevelW m fuel (inp'.drop p.text.length) top (acc ++ [.and])
+        | .or => tokenizeLevelW m fuel (inp'.drop p.text.length) top (acc ++ [.or])
+        | .not => tokenizeLevelW m fuel (inp'.drop p.text.length) top (acc ++ [.not])
+        | .tt => tokenizeLevelW m fuel (inp'.drop p.text.length) top (acc ++ [.tt])
+        | .ff => tokenizeLevelW m fuel (inp'.drop p.text.length) top (acc ++ [.ff])
         | .parenStart =>
-          match tokenizeLevel fuel (inp'.drop 1) false [] with
+          match tokenizeLevelW m fuel (inp'.drop 1) false [] with
           | .error e => .error e
-          | .ok (inner, rest) => tokenizeLevel fuel rest top (acc ++ [.paren inner])
+          | .ok (inner, rest) => tokenizeLevelW m fuel rest top (acc ++ [.paren inner])
         | .parenEnd =>
           if top then .error .unexpectedClosingParenthesis else .ok (acc, inp'.drop 1)
         | .braceStart =>
@@ -106,23 +113,33 @@ def tokenizeLevel : Nat → List Char → Bool → List Tok → Except TokErr (L
           | none => .error .missingClosingCurlyBrace
           | some (name, rest) =>
             if name.isEmpty then .error .emptyLiteralName
-            else tokenizeLevel fuel rest top (acc ++ [.lit name])
+            else tokenizeLevelW m fuel rest top (acc ++ [.lit name])
         | .braceEnd => .error .unexpectedClosingCurlyBrace
         | .invalid => .error .invalidPattern   -- the `panic!` arm of `IntermediateToken::from`
 
+/-- the code's recogniser: `peek_until_n(take_size)` then `IntermediateToken::try_from(buffer)` -/
+def bufMatch (inp : List Char) : Option Pat := firstMatch (inp.take takeSize)
+
+def tokenizeLevel := tokenizeLevelW bufMatch
+
 /-- `tokenize` -/
 def tokenize (s : List Char) : Except TokErr (List Tok) :=
-  (tokenizeLevel (s.length + 1) s true []).map (·.1)
+  match tokenizeLevel (s.length + 1) s true [] with
+  | .ok r => .ok r.1
+  | .error e => .error e
 
 /-! parse.rs -/
 inductive ParseErr where
   | emptySideOfOperator | unexpectedLiteralsGroup | tok (e : TokErr) | unreachable | outOfFuel
 deriving Repr, BEq, DecidableEq
 
-/-- `slice::split(|t| t == sep)` -/
-def splitOnTok (sep : Tok) : List Tok → List (List Tok)
+def Tok.isOr : Tok → Bool | .or => true | _ => false
+def Tok.isAnd : Tok → Bool | .and => true | _ => false
+
+/-- `slice::split(|t| t == &FinalToken::Or)` (resp. `And`): `sep` recognises the separator variant -/
+def splitOnTok (sep : Tok → Bool) : List Tok → List (List Tok)
   | [] => [[]]
-  | t :: ts => if t == sep then [] :: splitOnTok sep ts
+  | t :: ts => if sep t then [] :: splitOnTok sep ts
                else match splitOnTok sep ts with
                     | [] => [[t]]           -- impossible
                     | g :: gs => (t :: g) :: gs
@@ -140,7 +157,7 @@ mutual
 def parseTokensF : Nat → List Tok → Except ParseErr (Expr String)
   | 0, _ => .error .outOfFuel
   | fuel + 1, ts =>
-    match mapMExcept (parseAndF fuel) (splitOnTok .or ts) with
+    match mapMExcept (parseAndF fuel) (splitOnTok Tok.isOr ts) with
     | .error e => .error e
     | .ok [] => .error .emptySideOfOperator
     | .ok [e] => .ok e
@@ -149,7 +166,7 @@ def parseTokensF : Nat → List Tok → Except ParseErr (Expr String)
 def parseAndF : Nat → List Tok → Except ParseErr (Expr String)
   | 0, _ => .error .outOfFuel
   | fuel + 1, ts =>
-    match mapMExcept (parseTermF fuel) (splitOnTok .and ts) with
+    match mapMExcept (parseTermF fuel) (splitOnTok Tok.isAnd ts) with
     | .error e => .error e
     | .ok [] => .error .emptySideOfOperator
     | .ok [e] => .ok e
